@@ -85,6 +85,8 @@ def generate(rng, prop='C08'):
     if rng.random() < 0.3:
         scn['in_cap'] = rng.choice([1, 3, 16, 64])
         scn['peer_delay_us'] = rng.choice([0, 10, 500])
+    if rng.random() < 0.3:
+        scn['tear'] = [rng.choice([1, 1, 2, 0]) for _ in range(rng.randint(1, 4))]
     logs = rng.choice([[], ['logfile'], ['logfile_read'], ['logfile_send'], ['logfile', 'logfile_send'],
                        ['logfile', 'logfile_read', 'logfile_send'], ['logfile_read', 'logfile_send']])
     if prop == 'C11' and not logs:
